@@ -141,34 +141,43 @@ def closedIn (tags : List Nat) : List TOp → Bool
 def groupDisjoint (g h : Group) : Bool :=
   g.ops.all (fun x => h.ops.all (fun y => disjointL x.op.loc y.op.loc))
 
+/-- what a group may hold: a block holds no barrier-like operation and respects the width
+bound; a `BarrierBin` holds exactly one barrier-like operation -/
+def kindOk (bg : List Nat) (k : Nat) (blk : Bool) (g : List TOp) : Bool :=
+  if blk then g.all (fun x => !barrierLike bg x.op) && groupWidthOk k g
+  else match g with
+    | [x] => barrierLike bg x.op
+    | _ => false
+
+def qEmit (bg : List Nat) (k : Nat) (s : QState) (tags : List Nat) (blk : Bool) : Option QState :=
+  let g := s.rem.filter (fun x => tags.contains x.tag)
+  if !g.isEmpty && closedIn tags s.rem && kindOk bg k blk g then
+    some ⟨s.rem.filter (fun x => !tags.contains x.tag), s.out ++ [⟨g, blk⟩]⟩
+  else none
+
+def qLift (s : QState) (j m : Nat) : Option QState :=
+  match s.out[j]? with
+  | none => none
+  | some r =>
+    let tail := s.out.drop (j + 1)
+    let keep := tail.length - m          -- the groups `r` jumps over
+    if decide (m ≤ tail.length) && (tail.take keep).all (fun h => groupDisjoint r h) then
+      some ⟨s.rem, s.out.take j ++ tail.take keep ++ r :: tail.drop keep⟩
+    else none
+
+def qFuse (k : Nat) (s : QState) : Option QState :=
+  match s.out.reverse with
+  | r2 :: r1 :: rest =>
+    if r1.blk && r2.blk && groupWidthOk k (r1.ops ++ r2.ops) then
+      some ⟨s.rem, rest.reverse ++ [⟨r1.ops ++ r2.ops, true⟩]⟩
+    else none
+  | _ => none
+
 /-- one move; `none` = illegal -/
 def qstep (bg : List Nat) (k : Nat) (s : QState) : QMove → Option QState
-  | .emit tags blk =>
-    let g := s.rem.filter (fun x => tags.contains x.tag)
-    let kindOk :=
-      if blk then g.all (fun x => !barrierLike bg x.op) && groupWidthOk k g
-      else match g with
-        | [x] => barrierLike bg x.op
-        | _ => false
-    if !g.isEmpty && closedIn tags s.rem && kindOk then
-      some ⟨s.rem.filter (fun x => !tags.contains x.tag), s.out ++ [⟨g, blk⟩]⟩
-    else none
-  | .lift j m =>
-    match s.out[j]? with
-    | none => none
-    | some r =>
-      let tail := s.out.drop (j + 1)
-      let keep := tail.length - m          -- the groups `r` jumps over
-      if decide (m ≤ tail.length) && (tail.take keep).all (fun h => groupDisjoint r h) then
-        some ⟨s.rem, s.out.take j ++ tail.take keep ++ r :: tail.drop keep⟩
-      else none
-  | .fuse =>
-    match s.out.reverse with
-    | r2 :: r1 :: rest =>
-      if r1.blk && r2.blk && groupWidthOk k (r1.ops ++ r2.ops) then
-        some ⟨s.rem, rest.reverse ++ [⟨r1.ops ++ r2.ops, true⟩]⟩
-      else none
-    | _ => none
+  | .emit tags blk => qEmit bg k s tags blk
+  | .lift j m => qLift s j m
+  | .fuse => qFuse k s
 
 /-- run a list of moves; the index of the first illegal move on failure -/
 def qrun (bg : List Nat) (k : Nat) : QState → List QMove → Nat → Except Nat QState
